@@ -7,7 +7,9 @@
 
     Observation per configuration: per request the answer and the stack depth; after the
     last request the holders' content and, with trace on, FullTracer.trees, the flat trace
-    (keys, dependencies, values) and whether the cursor is back to None. *)
+    (keys, dependencies, values; left out beyond 1000 trees, where the first-occurrence
+    scan is quadratic - the harness still checks it on the implementation) and whether the
+    cursor is back to None. *)
 From Coq Require Import ZArith List Bool String.
 From Verif Require Import Base Obs Cal Tables Period Np Group Param Engine EngineTrace CorrEng.
 Import ListNotations.
@@ -53,7 +55,7 @@ Definition run_cfg (sy : sys) (pp : popu) (rs : list request) (cfg : bool * list
   if fst cfg then
     let '(l, (s, tr)) := run_obs_t (enough_fuel sy') sy' pp (init [], tr_init) rs in
     OL [OL l; ocache (cache s);
-        OL [OL (map onode (trees tr)); OL (map oflat (flat_trace (trees tr)));
+        OL [OL (map onode (trees tr)); (if Nat.ltb 1000 (List.length (trees tr)) then ONone else OL (map oflat (flat_trace (trees tr))));
             OZ (Z.of_nat (List.length (opened tr)))]]
   else
     let '(l, s) := run_obs_p (enough_fuel sy') sy' pp (init []) rs in
